@@ -71,6 +71,13 @@ def _yield_now():
     time.sleep(r.choice(_SLEEPS))
 
 
+def _yield_counter():
+  """Longer yield between the read and the write of a `+= 1` on a counter."""
+  r = getattr(_tls, 'rng', None)
+  if r is not None and _tls.p_probe > 0:
+    time.sleep(r.choice((0.0, 2e-4, 1e-3)))
+
+
 def _make_tracer(r, p_cold, p_hot):
   sleep = time.sleep
   rnd = r.random
@@ -120,6 +127,29 @@ class C16Probe(pg.DNAGenerator):
   @property
   def multi_objective(self):
     return self.inner.multi_objective
+
+  # The counters of DNAGenerator are updated by `self._num_x += 1`.  Reading
+  # and writing them through properties that may yield in between does not
+  # change their meaning; it only widens the window of the read-modify-write.
+  @property
+  def _num_proposals(self):
+    v = self.__dict__.get('_c16_np', 0)
+    _yield_counter()
+    return v
+
+  @_num_proposals.setter
+  def _num_proposals(self, v):
+    self.__dict__['_c16_np'] = v
+
+  @property
+  def _num_feedbacks(self):
+    v = self.__dict__.get('_c16_nf', 0)
+    _yield_counter()
+    return v
+
+  @_num_feedbacks.setter
+  def _num_feedbacks(self, v):
+    self.__dict__['_c16_nf'] = v
 
   def _propose(self):
     chk = getattr(_tls, 'on_propose', None)
@@ -190,10 +220,30 @@ _STUCK_SECS = 2.0
 
 
 def _reward(cfg, tid):
+  if cfg['rewards'] == 'increasing':
+    return float(tid)      # every completion improves on the best so far
   base = float((tid * 7 + cfg['salt']) % 5)
-  if cfg['neg']:
-    return -1.0 - base
+  if cfg['rewards'] == 'negative':
+    return -1.0 - base     # an infeasible trial (reward 0.0) would look best
   return base
+
+
+class _Rendezvous:
+  """Soft barrier: lets the workers finish their trials at the same moment."""
+
+  def __init__(self, n):
+    self.n = n
+    self.count = 0
+    self.cv = threading.Condition()
+
+  def wait(self, timeout):
+    with self.cv:
+      self.count += 1
+      target = ((self.count - 1) // self.n + 1) * self.n
+      if self.count >= target:
+        self.cv.notify_all()
+      else:
+        self.cv.wait_for(lambda: self.count >= target, timeout)
 
 
 def _action(cfg, tid, widx):
@@ -242,6 +292,7 @@ class _RunLog:
     self.trial_objs = {}  # id(trial) -> trial, as delivered
     self.group_trials = {}  # group -> {trial id: trial} as delivered
     self.overlaps = []    # (group, still pending trial, newly delivered trial)
+    self.rendezvous = None
     self.stop = False
 
 
@@ -336,6 +387,8 @@ def _worker(cfg, widx, group, leader, algo, space, name, log, evs, start_evt, fi
         # handed a fresh trial meanwhile is seen by the per-group check.
         time.sleep(r.choice((0.0, 1e-4, 4e-4)))
       evs.append((next(tick), 'pre', tid, act))
+      if log.rendezvous is not None:
+        log.rendezvous.wait(0.02)
 
       def finish():
         if act == 'done':
@@ -396,6 +449,8 @@ def run_scenario(cfg, seed_tag):
   else:
     algos = [_make_algo(cfg['algo'], cfg['salt'] + i) for i in range(w)]
   log = _RunLog()
+  if cfg['sync']:
+    log.rendezvous = _Rendezvous(w)
   leaders = {}
   for i, g in enumerate(groups):
     leaders.setdefault(g if g is not None else ('solo', i), i)
@@ -611,16 +666,11 @@ def check_run(obs):
   nf_ = sum(a.num_feedbacks for a in uniq)
   inp = sum(a.inner.num_proposals for a in uniq)
   inf_ = sum(a.inner.num_feedbacks for a in uniq)
-  put('algorithm.num_proposals', np_ == m, f'algorithm.num_proposals={np_}, trials={m}')
-  put('algorithm.num_feedbacks', nf_ == len(done_ids),
-      f'algorithm.num_feedbacks={nf_}, trials completed with a reward={len(done_ids)}')
-  if cfg['algo'] != 'dedup-auto':
-    put('algorithm.inner-counts', (inp, inf_) == (m, len(done_ids)),
-        f'wrapped algorithm (num_proposals, num_feedbacks)=({inp}, {inf_}), '
-        f'expected ({m}, {len(done_ids)})')
-  else:
-    put('algorithm.inner-counts', inf_ == len(done_ids),
-        f'wrapped algorithm num_feedbacks={inf_}, expected {len(done_ids)}')
+  put('algorithm.num_proposals-counter', np_ == m and (inp == m or cfg['algo'] == 'dedup-auto'),
+      f'algorithm.num_proposals={np_} (wrapped algorithm: {inp}), trials={m}')
+  put('algorithm.num_feedbacks-counter', nf_ == len(done_ids) and inf_ == len(done_ids),
+      f'algorithm.num_feedbacks={nf_} (wrapped algorithm: {inf_}), but {len(done_ids)} trials '
+      'were completed with a reward and each was fed back exactly once')
   if cfg['algo'] == 'evo-keep-all':
     pop = sorted(d.metadata.get('c16') for a in uniq for d in a.inner.population)
     want_pop = sorted(t.dna.metadata.get('c16') for t in trials if t.id in done_ids)
@@ -667,10 +717,27 @@ _SOLO = ['none', 'names', 'ints']
 _COW = ['pairs-single', 'pairs-racing', 'one-racing', 'racing-mixed', 'mixed-racing']
 
 
+def _pressure(seed):
+  """Scenarios in which all workers finish their trials at the same moment."""
+  base = dict(policy=False, end_at=None, breakers={}, algos='shared', space=_SPACE_EXPR,
+              start='staggered', probe_yield=True, p_cold=0.03, p_hot=0.3,
+              rewards='increasing', sync=True)
+  return [
+      dict(base, W=4, N=12, layout='none', actions=('done',), algo='random', trace=True,
+           salt=seed),
+      dict(base, W=6, N=12, layout='names', actions=('done', 'done2'), algo='evo-keep-all',
+           trace=True, salt=seed + 1),
+      dict(base, W=3, N=9, layout='ints', actions=('done',), algo='regevo', trace=False,
+           salt=seed + 2),
+  ]
+
+
 def _scenarios(tier, seed):
   """Yields (cfg, repeats)."""
   r = rng(seed, 'c16-scenarios')
   quick = tier == 'quick'
+  for cfg in _pressure(seed):
+    yield cfg, (3 if quick else 10)
   k = 0
   for w in range(2, 9):
     for acts, policy, endl, brk in _MIXES:
@@ -697,13 +764,16 @@ def _scenarios(tier, seed):
                    else 'staggered'),
             trace=(r.random() < 0.8), probe_yield=(r.random() < 0.5),
             p_cold=adv[0], p_hot=adv[1],
-            neg=(r.random() < 0.5), salt=r.randrange(1000))
+            rewards=r.choice(('mod5', 'negative', 'increasing')),
+            # all workers finish their trials at the same moment
+            sync=(lay != 'pairs-single' and not brk and r.random() < 0.4),
+            salt=r.randrange(1000))
         if quick and (k + seed) % _QUICK_STRIDE != 0:
           continue
         yield cfg, (1 if quick else 2)
 
 
-_QUICK_STRIDE = 8
+_QUICK_STRIDE = 9
 
 
 def _witness(cfg, case_id):
@@ -737,7 +807,9 @@ def drv_concurrent_sampling(tier, seed):
              'pairs (single finisher, racing finishers, done-vs-skip races), one group, mixed; '
              'algorithms Random(seed), regularized_evolution, an Evolution that keeps its whole population, '
              'Deduping(hill_climb, auto_reward_fn); '
-             'shared (set up beforehand) or one per worker; staggered and barrier-released starts; '
+             'shared (set up beforehand) or one per worker; staggered and barrier-released starts; optional '
+             'rendezvous so that all workers finish their trials at the same moment; 3 such pressure '
+             'scenarios always (3 resp. 10 runs); '
              + (f'quick: 1 run of every {_QUICK_STRIDE}th scenario of the grid W x mix x layout (offset by seed)'
                 if tier == 'quick' else 'thorough: 2 runs of every scenario of the grid')
              + '; invariants checked at quiescence on pg.poll_result, the probe log and per-worker '
